@@ -16,6 +16,7 @@ Model driver for C11 (formatter). Requests:
 import KotoVerif.Common.Proto
 import KotoVerif.Model.FmtOptions
 import KotoVerif.Model.SrcSlice
+import KotoVerif.Model.Layout
 
 open KotoVerif
 
@@ -87,10 +88,55 @@ def handleSlice (args : List String) : String :=
     | _, _, _, _ => "bad-request"
   | _ => "bad-request"
 
+/-! `group <line_length> <column> <tree>`: the decision of `render_group` for the item tree
+`tree` = (g item*) with item = (c w) | (o w) | (s w lines) | (l) | (b BreakName) | (e) | (g item*).
+Response: `<measured> <too_long> <force_break> <last_is_block> <broken> <flatOneLine> <flatWidth>` -/
+
+def brkOfName : String → Option Layout.Brk
+  | "None" => some .none | "SpaceOrIndent" => some .spaceOrIndent
+  | "SpaceOrIndentIfNecessary" => some .spaceOrIndentIfNecessary | "SpaceOrReturn" => some .spaceOrReturn
+  | "MaybeIndent" => some .maybeIndent | "IndentIfNecessary" => some .indentIfNecessary
+  | "MaybeReturn" => some .maybeReturn | "IndentedBreak" => some .indentedBreak
+  | "ReturnOrIndent" => some .returnOrIndent | "LineStart" => some .lineStart
+  | "StartBlock" => some .startBlock | _ => none
+
+mutual
+partial def itemOfSexp : Proto.Sexp → Option Layout.Item
+  | .list (.atom "c" :: w :: []) => w.nat?.map .char
+  | .list (.atom "o" :: w :: []) => w.nat?.map .optChar
+  | .list (.atom "s" :: w :: l :: []) => do
+    let w ← w.nat?
+    let l ← l.nat?
+    pure (.str w l)
+  | .list (.atom "l" :: []) => some .lineBreak
+  | .list (.atom "e" :: []) => some .error
+  | .list (.atom "b" :: .atom n :: []) => (brkOfName n).map .brk
+  | .list (.atom "g" :: rest) => (itemsOfSexps rest).map .group
+  | _ => none
+partial def itemsOfSexps : List Proto.Sexp → Option Layout.Items
+  | [] => some .nil
+  | x :: xs => do
+    let i ← itemOfSexp x
+    let is ← itemsOfSexps xs
+    pure (.cons i is)
+end
+
+def b01 (b : Bool) : String := if b then "1" else "0"
+
+def handleGroup (line : String) : String :=
+  match Proto.parseLine line with
+  | .atom "group" :: ll :: col :: tree :: [] =>
+    match ll.nat?, col.nat?, itemOfSexp tree with
+    | some ll, some col, some (.group is) =>
+      s!"{Layout.lineLengthItems is} {b01 (Layout.tooLong ll col is)} {b01 (Layout.anyItem Layout.forceBreak is)} {b01 (Layout.lastIs Layout.isIndentedBlock is)} {b01 (Layout.broken ll col is)} {b01 (Layout.flatOneLineItems is)} {Layout.flatWidthItems is}"
+    | _, _, _ => "bad-request"
+  | _ => "bad-request"
+
 def handle (line : String) : String :=
   match (line.splitOn " ").filter (· ≠ "") with
   | "fparse" :: rest => handleFparse rest
   | "slice" :: rest => handleSlice rest
+  | "group" :: _ => handleGroup line
   | _ => "bad-request"
 
 def main : IO Unit := Proto.serve handle
